@@ -1,10 +1,11 @@
 /-!
 # Model of `GlobalUsageAnalysis::recurse` (ir/src/usage_analysis.rs) as used for `is_used` on Metal
 
-`calculate_local` gives every function the set of symbols its body mentions (`direct`); globals and
-constant buffers get the empty set.  `recurse` then repeats passes over all keys (in `HashMap` key order,
-here an arbitrary list `keys`), replacing a key's set by its union with the sets of its members whenever
-that is strictly larger, until a whole pass changes nothing.  Sets are lists read through membership only.
+`calculate_local` gives every symbol the set of symbols it mentions directly (`direct`): a function its body
+and the default values of its parameters, a global variable its initialiser, a constant buffer nothing.
+`recurse` then repeats passes over all keys (in `HashMap` key order, here an arbitrary list `keys`), replacing a
+key's set by its union with the sets of its members whenever that is strictly larger, until a whole pass
+changes nothing.  Sets are lists read through membership only.
 The loop is modelled with fuel; `none` = fuel exhausted (the theorems are about the `some` case).
 -/
 namespace RsslVerif.Model.MetaReach
@@ -14,30 +15,25 @@ inductive Sym where
   | glob (id : Nat)
   deriving DecidableEq, Repr, Inhabited
 
-/-- the stored set of a symbol: only functions have a non-empty one -/
-def reqOf (req : Nat → List Sym) : Sym → List Sym
-  | .fn h => req h
-  | .glob _ => []
-
 /-- `new_set = current ∪ ⋃ { required(other) | other ∈ current }` -/
-def newSet (req : Nat → List Sym) (f : Nat) : List Sym :=
-  req f ++ (req f).flatMap (reqOf req)
+def newSet (req : Sym → List Sym) (k : Sym) : List Sym :=
+  req k ++ (req k).flatMap req
 
 /-- `new_set.len() > current_set.required.len()` (sets: the union has a new element) -/
-def grows (req : Nat → List Sym) (f : Nat) : Bool :=
-  !(newSet req f).all (fun s => (req f).contains s)
+def grows (req : Sym → List Sym) (k : Sym) : Bool :=
+  !(newSet req k).all (fun s => (req k).contains s)
 
-def update (req : Nat → List Sym) (f : Nat) (v : List Sym) : Nat → List Sym :=
-  fun x => if x = f then v else req x
+def update (req : Sym → List Sym) (k : Sym) (v : List Sym) : Sym → List Sym :=
+  fun x => if x = k then v else req x
 
 /-- one `for key in &keys` pass; the flag is `modified` -/
-def pass : List Nat → (Nat → List Sym) → Bool → (Nat → List Sym) × Bool
+def pass : List Sym → (Sym → List Sym) → Bool → (Sym → List Sym) × Bool
   | [], req, m => (req, m)
-  | f :: ks, req, m =>
-    if grows req f then pass ks (update req f (newSet req f)) true else pass ks req m
+  | k :: ks, req, m =>
+    if grows req k then pass ks (update req k (newSet req k)) true else pass ks req m
 
 /-- the outer `loop { .. if !modified { break } }` -/
-def recurse : Nat → List Nat → (Nat → List Sym) → Option (Nat → List Sym)
+def recurse : Nat → List Sym → (Sym → List Sym) → Option (Sym → List Sym)
   | 0, _, _ => none
   | fuel + 1, keys, req =>
     match pass keys req false with
@@ -45,8 +41,8 @@ def recurse : Nat → List Nat → (Nat → List Sym) → Option (Nat → List S
     | (req', false) => some req'
 
 /-- `all_used_globals.contains(Global(g))` where `all_used_globals` concatenates the required globals of
-    the stage entry points -/
-def usedBy (req : Nat → List Sym) (entries : List Nat) (g : Nat) : Bool :=
-  entries.any fun e => (req e).contains (.glob g)
+    the stage entry points (functions) -/
+def usedBy (req : Sym → List Sym) (entries : List Nat) (g : Nat) : Bool :=
+  entries.any fun e => (req (.fn e)).contains (.glob g)
 
 end RsslVerif.Model.MetaReach
